@@ -1,0 +1,601 @@
+//! Verification facade (cargo feature `verif`, off by default).
+//!
+//! `pub` wrappers over the crate's `pub(crate)` internals for the property checks that live in
+//! `/verif/harness/vconductor`. Every function forwards to the real implementation; nothing in
+//! here (or in the `verif_hooks` modules it calls) replaces production logic. Only public types
+//! (`astria_core`, `tendermint`, `tendermint_rpc`, `celestia_types`, `bytes`, `std`) appear in
+//! signatures.
+
+use std::sync::OnceLock;
+
+use astria_core::{
+    execution::v2::{
+        CommitmentState,
+        ExecutedBlockMetadata,
+        ExecutionSession,
+    },
+    primitive::v1::RollupId,
+    protocol::price_feed::v1::ExtendedCommitInfoWithCurrencyPairMapping,
+    sequencerblock::v1::{
+        block::{
+            self,
+            FilteredSequencerBlock,
+            SequencerBlockHeader,
+        },
+        SubmittedMetadata,
+        SubmittedRollupData,
+    },
+};
+use bytes::Bytes;
+use celestia_types::{
+    nmt::Namespace,
+    Blob,
+};
+use sequencer_client::{
+    tendermint::block::Height,
+    tendermint_rpc,
+};
+
+pub use crate::config::CommitLevel;
+use crate::{
+    block_cache::BlockCache,
+    celestia::{
+        verif_hooks as celestia_hooks,
+        ReconstructedBlock,
+    },
+    executor::verif_hooks as executor_hooks,
+    metrics::Metrics,
+    state::{
+        self,
+        State,
+        StateReceiver,
+        StateSender,
+    },
+};
+
+fn noop_metrics() -> &'static Metrics {
+    static METRICS: OnceLock<Metrics> = OnceLock::new();
+    METRICS.get_or_init(|| {
+        <Metrics as telemetry::Metrics>::noop_metrics(&())
+            .expect("registering no-op metrics must not fail")
+    })
+}
+
+// ---------------------------------------------------------------------------------------------
+// (1) decoding and reconstruction
+// ---------------------------------------------------------------------------------------------
+
+/// The namespace conductor reads Sequencer metadata from (derived from the cometbft chain ID like
+/// `RunningReader::from_parts` does).
+#[must_use]
+pub fn metadata_namespace(sequencer_chain_id: &str) -> Namespace {
+    astria_core::celestia::namespace_v0_from_sha256_of_bytes(sequencer_chain_id.as_bytes())
+}
+
+/// The namespace conductor reads the data of rollup `rollup_id` from.
+#[must_use]
+pub fn rollup_namespace(rollup_id: RollupId) -> Namespace {
+    astria_core::celestia::namespace_v0_from_rollup_id(rollup_id)
+}
+
+/// The result of conductor's `decode_raw_blobs`.
+pub struct DecodedBlobs {
+    celestia_height: u64,
+    metadata: Vec<SubmittedMetadata>,
+    rollup_data: Vec<SubmittedRollupData>,
+}
+
+impl DecodedBlobs {
+    #[must_use]
+    pub fn celestia_height(&self) -> u64 {
+        self.celestia_height
+    }
+
+    /// The metadata items that were accepted by the decoder, in decoding order.
+    #[must_use]
+    pub fn metadata(&self) -> Vec<SubmittedMetadata> {
+        self.metadata.clone()
+    }
+
+    /// The rollup data items that were accepted by the decoder, in decoding order.
+    #[must_use]
+    pub fn rollup_data(&self) -> Vec<SubmittedRollupData> {
+        self.rollup_data.clone()
+    }
+}
+
+impl From<celestia_hooks::Decoded> for DecodedBlobs {
+    fn from(decoded: celestia_hooks::Decoded) -> Self {
+        let (celestia_height, metadata, rollup_data) = decoded.into_parts();
+        Self {
+            celestia_height,
+            metadata,
+            rollup_data,
+        }
+    }
+}
+
+/// Decodes blobs the way conductor does (real `decode_raw_blobs`).
+///
+/// `raw_blobs` is split the way `fetch_new_blobs` would have returned it: blobs in
+/// `rollup_namespace` form the rollup list, all others form the metadata list (where the real
+/// decoder drops those that are not in `metadata_namespace`). The Celestia height is 0.
+#[must_use]
+pub fn decode_blobs(
+    raw_blobs: Vec<Blob>,
+    metadata_namespace: Namespace,
+    rollup_namespace: Namespace,
+) -> DecodedBlobs {
+    let (rollup_blobs, metadata_blobs) = raw_blobs
+        .into_iter()
+        .partition(|blob| blob.namespace == rollup_namespace && rollup_namespace != metadata_namespace);
+    decode_fetched_blobs(
+        0,
+        metadata_blobs,
+        rollup_blobs,
+        metadata_namespace,
+        rollup_namespace,
+    )
+}
+
+/// Decodes blobs the way conductor does (real `decode_raw_blobs`), with the two blob lists given
+/// exactly as the two `blob.GetAll` requests of `fetch_new_blobs` returned them.
+#[must_use]
+pub fn decode_fetched_blobs(
+    celestia_height: u64,
+    metadata_blobs: Vec<Blob>,
+    rollup_blobs: Vec<Blob>,
+    metadata_namespace: Namespace,
+    rollup_namespace: Namespace,
+) -> DecodedBlobs {
+    celestia_hooks::decode(
+        celestia_height,
+        metadata_blobs,
+        rollup_blobs,
+        rollup_namespace,
+        metadata_namespace,
+    )
+    .into()
+}
+
+/// A block reconstructed by conductor from Celestia blobs (what is forwarded to the executor as a
+/// firm block).
+#[derive(Clone, Debug)]
+pub struct ReconstructedBlockView {
+    pub celestia_height: u64,
+    pub block_hash: block::Hash,
+    /// The Sequencer height recorded in `header`.
+    pub height: u64,
+    pub header: SequencerBlockHeader,
+    /// The rollup transactions for the configured rollup ID.
+    pub transactions: Vec<Bytes>,
+    pub extended_commit_info: Option<ExtendedCommitInfoWithCurrencyPairMapping>,
+}
+
+impl From<ReconstructedBlock> for ReconstructedBlockView {
+    fn from(block: ReconstructedBlock) -> Self {
+        let ReconstructedBlock {
+            celestia_height,
+            block_hash,
+            header,
+            transactions,
+            extended_commit_info,
+        } = block;
+        Self {
+            celestia_height,
+            block_hash,
+            height: header.height().value(),
+            header,
+            transactions,
+            extended_commit_info,
+        }
+    }
+}
+
+impl From<ReconstructedBlockView> for ReconstructedBlock {
+    fn from(block: ReconstructedBlockView) -> Self {
+        let ReconstructedBlockView {
+            celestia_height,
+            block_hash,
+            header,
+            transactions,
+            extended_commit_info,
+            ..
+        } = block;
+        Self {
+            celestia_height,
+            block_hash,
+            header,
+            transactions,
+            extended_commit_info,
+        }
+    }
+}
+
+/// Runs the real `reconstruct_blocks_from_verified_blobs` on `decoded`, treating every decoded
+/// metadata item as verified (no commit / quorum verification).
+///
+/// The order of the returned blocks is the one conductor produced (it depends on a `HashMap`).
+#[must_use]
+pub fn reconstruct_unverified(
+    decoded: &DecodedBlobs,
+    rollup_id: RollupId,
+) -> Vec<ReconstructedBlockView> {
+    celestia_hooks::reconstruct_assuming_verified_from_parts(
+        decoded.celestia_height,
+        decoded.metadata.clone(),
+        decoded.rollup_data.clone(),
+        rollup_id,
+    )
+    .into_iter()
+    .map(Into::into)
+    .collect()
+}
+
+/// `decode_blobs` followed by `reconstruct_unverified`.
+#[must_use]
+pub fn decode_and_reconstruct_unverified(
+    raw_blobs: Vec<Blob>,
+    metadata_namespace: Namespace,
+    rollup_namespace: Namespace,
+    rollup_id: RollupId,
+) -> Vec<ReconstructedBlockView> {
+    reconstruct_unverified(
+        &decode_blobs(raw_blobs, metadata_namespace, rollup_namespace),
+        rollup_id,
+    )
+}
+
+// ---------------------------------------------------------------------------------------------
+// (2) the verified pipeline: decode -> verify_metadata (real BlobVerifier) -> reconstruct
+// ---------------------------------------------------------------------------------------------
+
+/// The rollup state conductor tracks (`state::channel`), as seen by the readers.
+pub struct RollupState {
+    sender: StateSender,
+    receiver: StateReceiver,
+}
+
+impl RollupState {
+    /// Real `State::try_from_execution_session` + `state::channel`.
+    ///
+    /// # Errors
+    /// Returns the error of `State::try_from_execution_session` as a string.
+    pub fn new(session: &ExecutionSession, commit_level: CommitLevel) -> Result<Self, String> {
+        let state =
+            State::try_from_execution_session(session, commit_level).map_err(|e| e.to_string())?;
+        let (sender, receiver) = state::channel(state);
+        Ok(Self {
+            sender,
+            receiver,
+        })
+    }
+
+    /// Real `StateSender::try_update_commitment_state`.
+    ///
+    /// # Errors
+    /// Returns the error of `try_update_commitment_state` as a string.
+    pub fn update_commitment_state(
+        &mut self,
+        commitment_state: CommitmentState,
+        commit_level: CommitLevel,
+    ) -> Result<(), String> {
+        self.sender
+            .try_update_commitment_state(commitment_state, commit_level)
+            .map_err(|e| e.to_string())
+    }
+
+    #[must_use]
+    pub fn next_expected_firm_sequencer_height(&self) -> u64 {
+        self.receiver.next_expected_firm_sequencer_height().value()
+    }
+
+    #[must_use]
+    pub fn next_expected_soft_sequencer_height(&self) -> u64 {
+        self.receiver.next_expected_soft_sequencer_height().value()
+    }
+}
+
+/// The real `BlobVerifier` (its cache included). The only substitution is at the client
+/// boundary: where production calls `SequencerClient::commit(height)` and
+/// `SequencerClient::validators(height, Paging::Default)` the two closures are called.
+#[derive(Clone)]
+pub struct Verifier(celestia_hooks::Verifier);
+
+impl Verifier {
+    pub fn new<C, V>(commit: C, validators: V) -> Self
+    where
+        C: Fn(Height) -> Result<tendermint_rpc::endpoint::commit::Response, tendermint_rpc::Error>
+            + Send
+            + Sync
+            + 'static,
+        V: Fn(Height) -> Result<tendermint_rpc::endpoint::validators::Response, tendermint_rpc::Error>
+            + Send
+            + Sync
+            + 'static,
+    {
+        Self(celestia_hooks::Verifier::new(commit, validators))
+    }
+
+    /// The body of `FetchConvertVerifyAndReconstruct::execute` after the fetch: real
+    /// `decode_raw_blobs` -> real `verify_metadata` -> real
+    /// `reconstruct_blocks_from_verified_blobs`. Must be called inside a tokio runtime.
+    ///
+    /// A panic in decoding or reconstruction propagates to the caller (in production it is turned
+    /// into an error that stops the reader).
+    #[expect(clippy::too_many_arguments, reason = "mirrors the fields of the production task")]
+    pub async fn decode_verify_reconstruct(
+        &self,
+        celestia_height: u64,
+        metadata_blobs: Vec<Blob>,
+        rollup_blobs: Vec<Blob>,
+        metadata_namespace: Namespace,
+        rollup_namespace: Namespace,
+        rollup_id: RollupId,
+        rollup_state: &RollupState,
+    ) -> Vec<ReconstructedBlockView> {
+        self.0
+            .decode_verify_reconstruct(
+                celestia_height,
+                metadata_blobs,
+                rollup_blobs,
+                rollup_namespace,
+                metadata_namespace,
+                rollup_id,
+                rollup_state.receiver.clone(),
+            )
+            .await
+            .into_iter()
+            .map(Into::into)
+            .collect()
+    }
+}
+
+// ---------------------------------------------------------------------------------------------
+// (3) executor
+// ---------------------------------------------------------------------------------------------
+
+/// Outcome of `BlockCache::insert`.
+#[derive(Clone, Copy, Debug, PartialEq, Eq)]
+pub enum CacheInsert {
+    Inserted,
+    /// `Error::Old`
+    Old,
+    /// `Error::Occupied`
+    Occupied,
+}
+
+fn map_insert(result: Result<(), crate::block_cache::Error>) -> CacheInsert {
+    match result {
+        Ok(()) => CacheInsert::Inserted,
+        Err(crate::block_cache::Error::Old {
+            ..
+        }) => CacheInsert::Old,
+        Err(crate::block_cache::Error::Occupied {
+            ..
+        }) => CacheInsert::Occupied,
+        Err(crate::block_cache::Error::ZeroHeightsNotSupported) => {
+            unreachable!("insert never returns this variant")
+        }
+    }
+}
+
+/// The real `BlockCache<FilteredSequencerBlock>` of the Sequencer (soft) reader.
+pub struct SoftBlockCache(BlockCache<FilteredSequencerBlock>);
+
+impl SoftBlockCache {
+    /// # Errors
+    /// If `next_height` is zero.
+    pub fn with_next_height(next_height: u64) -> Result<Self, String> {
+        let height = Height::try_from(next_height).map_err(|e| e.to_string())?;
+        BlockCache::with_next_height(height)
+            .map(Self)
+            .map_err(|e| e.to_string())
+    }
+
+    pub fn insert(&mut self, block: FilteredSequencerBlock) -> CacheInsert {
+        map_insert(self.0.insert(block))
+    }
+
+    pub fn pop(&mut self) -> Option<FilteredSequencerBlock> {
+        self.0.pop()
+    }
+
+    /// # Panics
+    /// If `latest_height` exceeds `i64::MAX`.
+    pub fn drop_obsolete(&mut self, latest_height: u64) {
+        self.0
+            .drop_obsolete(Height::try_from(latest_height).expect("height fits i64"));
+    }
+
+    #[must_use]
+    pub fn next_height_to_pop(&self) -> u64 {
+        self.0.next_height_to_pop()
+    }
+}
+
+/// The real `BlockCache<ReconstructedBlock>` of the Celestia (firm) reader.
+pub struct FirmBlockCache(BlockCache<ReconstructedBlock>);
+
+impl FirmBlockCache {
+    /// # Errors
+    /// If `next_height` is zero.
+    pub fn with_next_height(next_height: u64) -> Result<Self, String> {
+        let height = Height::try_from(next_height).map_err(|e| e.to_string())?;
+        BlockCache::with_next_height(height)
+            .map(Self)
+            .map_err(|e| e.to_string())
+    }
+
+    pub fn insert(&mut self, block: ReconstructedBlockView) -> CacheInsert {
+        map_insert(self.0.insert(block.into()))
+    }
+
+    pub fn pop(&mut self) -> Option<ReconstructedBlockView> {
+        self.0.pop().map(Into::into)
+    }
+
+    #[must_use]
+    pub fn next_height_to_pop(&self) -> u64 {
+        self.0.next_height_to_pop()
+    }
+}
+
+/// Result of handing a block to one of the executor's channels with `try_send`.
+#[derive(Clone, Copy, Debug, PartialEq, Eq)]
+pub enum Forward {
+    Sent,
+    Full,
+    Closed,
+}
+
+/// What one iteration of the executor's event loop did.
+#[derive(Debug)]
+pub enum Step {
+    /// A firm block was received; `Err` is the error `execute_firm` returned (it ends the loop).
+    Firm(Result<(), String>),
+    /// A soft block was received; `Err` is the error `execute_soft` returned (it ends the loop).
+    Soft(Result<(), String>),
+    /// No enabled branch had a block ready.
+    Idle { soft_disabled: bool },
+}
+
+/// A view of the executor's tracked rollup state.
+#[derive(Clone, Debug)]
+pub struct ExecutorState {
+    pub firm: ExecutedBlockMetadata,
+    pub soft: ExecutedBlockMetadata,
+    pub lowest_celestia_search_height: u64,
+    pub next_expected_firm_sequencer_height: u64,
+    pub next_expected_soft_sequencer_height: u64,
+    pub sequencer_stop_height: Option<u64>,
+    pub is_spread_too_large: bool,
+    /// Rollup block numbers in `blocks_pending_finalization`, sorted.
+    pub pending_finalization: Vec<u64>,
+}
+
+/// The real executor state machine (`executor::Initialized`) with the real gRPC execution client,
+/// without reader tasks: the harness plays the readers on the executor's channels.
+pub struct Executor(executor_hooks::Harness);
+
+impl Executor {
+    /// Mirrors `Executor::init`: connects the real client to `execution_rpc_url`, creates the
+    /// execution session (real `create_initial_node_state`) and the block channels (real
+    /// `create_block_channels`).
+    ///
+    /// # Errors
+    /// Returns the error chain of the failing initialization step as a string.
+    pub async fn init(execution_rpc_url: &str, commit_level: CommitLevel) -> Result<Self, String> {
+        let config = crate::Config {
+            celestia_block_time_ms: 12_000,
+            celestia_node_http_url: "http://127.0.0.1:1".to_string(),
+            no_celestia_auth: true,
+            celestia_bearer_token: String::new(),
+            sequencer_grpc_url: "http://127.0.0.1:1".to_string(),
+            sequencer_cometbft_url: "http://127.0.0.1:1".to_string(),
+            sequencer_block_time_ms: 2_000,
+            sequencer_requests_per_second: 500,
+            execution_rpc_url: execution_rpc_url.to_string(),
+            log: String::new(),
+            execution_commit_level: commit_level,
+            force_stdout: false,
+            no_otel: true,
+            no_metrics: true,
+            metrics_http_listener_addr: String::new(),
+        };
+        executor_hooks::Harness::init(config, noop_metrics())
+            .await
+            .map(Self)
+            .map_err(|e| format!("{e:#}"))
+    }
+
+    /// `try_send` on the channel the Sequencer reader forwards soft blocks on.
+    pub fn forward_soft(&self, block: FilteredSequencerBlock) -> Result<Forward, String> {
+        use tokio::sync::mpsc::error::TrySendError;
+        Ok(match self.0.soft_sender().try_send(block) {
+            Ok(()) => Forward::Sent,
+            Err(TrySendError::Full(_)) => Forward::Full,
+            Err(TrySendError::Closed(_)) => Forward::Closed,
+        })
+    }
+
+    /// `try_send` on the channel the Celestia reader forwards firm blocks on.
+    pub fn forward_firm(&self, block: ReconstructedBlockView) -> Result<Forward, String> {
+        use tokio::sync::mpsc::error::TrySendError;
+        Ok(
+            match self
+                .0
+                .firm_sender()
+                .try_send(Box::new(ReconstructedBlock::from(block)))
+            {
+                Ok(()) => Forward::Sent,
+                Err(TrySendError::Full(_)) => Forward::Full,
+                Err(TrySendError::Closed(_)) => Forward::Closed,
+            },
+        )
+    }
+
+    /// A handle on the state as the readers see it (`StateSender::subscribe`).
+    #[must_use]
+    pub fn next_expected_heights_seen_by_readers(&self) -> (u64, u64) {
+        let receiver = self.0.subscribe_state();
+        (
+            receiver.next_expected_firm_sequencer_height().value(),
+            receiver.next_expected_soft_sequencer_height().value(),
+        )
+    }
+
+    #[must_use]
+    pub fn state(&self) -> ExecutorState {
+        let state = self.0.state();
+        ExecutorState {
+            firm: state.firm(),
+            soft: state.soft(),
+            lowest_celestia_search_height: state.lowest_celestia_search_height(),
+            next_expected_firm_sequencer_height: state
+                .next_expected_firm_sequencer_height()
+                .value(),
+            next_expected_soft_sequencer_height: state
+                .next_expected_soft_sequencer_height()
+                .value(),
+            sequencer_stop_height: self
+                .0
+                .subscribe_state()
+                .sequencer_stop_height()
+                .map(std::num::NonZeroU64::get),
+            is_spread_too_large: self.0.is_spread_too_large(),
+            pending_finalization: self.0.pending_finalization_numbers(),
+        }
+    }
+
+    /// One iteration of the executor's biased `select!` over the blocks ready in its channels:
+    /// firm first (real `execute_firm`); soft only if the real `is_spread_too_large()` is false
+    /// (real `execute_soft`).
+    pub async fn step(&mut self) -> Step {
+        match self.0.step().await {
+            executor_hooks::Stepped::Firm(result) => {
+                Step::Firm(result.map_err(|e| format!("{e:#}")))
+            }
+            executor_hooks::Stepped::Soft(result) => {
+                Step::Soft(result.map_err(|e| format!("{e:#}")))
+            }
+            executor_hooks::Stepped::Idle {
+                soft_disabled,
+            } => Step::Idle {
+                soft_disabled,
+            },
+        }
+    }
+
+    /// Closes the executor's channels (drops the senders) and runs the real
+    /// `Initialized::run_event_loop` until it has drained them or fails.
+    ///
+    /// Returns the loop's result and the sorted block numbers still pending finalization.
+    pub async fn run_real_event_loop_to_completion(self) -> (Result<(), String>, Vec<u64>) {
+        let (result, pending) = self.0.run_real_event_loop_to_completion().await;
+        (
+            result.map(|_| ()).map_err(|e| format!("{e:#}")),
+            pending,
+        )
+    }
+}
